@@ -5,7 +5,7 @@ C07 checker.  One real node per case; query objects are numbered in creation ord
 
   `reg <lt> <id> <ack> <cap> <dl> <tm>`  hook `VerifRegisterQuery`: the real `newQueryResponse(cap, …)` +
         `registerQueryResponse`; `dl` = `far` | `past` (the object's deadline is already over), `tm` = `long`
-        (the harness fires the timer closure's body: op `close`) | `short` (the real timer, 25 ms) → `ok`
+        (the harness fires the timer closure's body: op `close`) | `short` (the real timer, 120 ms) → `ok`
   `query <ack>`                          the real `s.Query(…)` (long timeout) → `<lt> <id> <cap>`
   `reply <lt> <id> <from> <ack> <tag>`   a `messageQueryResponse` through `Delegate.NotifyMsg` (the whole of
         `handleQueryResponse` runs) → `ok`
@@ -107,7 +107,7 @@ def doRegister (s : St) (lt id : Nat) (ack : Bool) (cap : Nat) (past short : Boo
   { sys := sys, consumedA := s.consumedA ++ [0], consumedR := s.consumedR ++ [0],
     mon := s.mon ++ [{ lt := lt, id := id, ack := ack, short := short, past := past }] }
 
-def step (s : St) (op : List String) (impl : String) : LineOut St :=
+def stepOp (s : St) (op : List String) (impl : String) : LineOut St :=
   match op with
   | ["reg", lt, id, ack, cap, dl, tm] =>
     match lt.toNat?, id.toNat?, bool? ack, cap.toNat? with
@@ -177,6 +177,11 @@ def step (s : St) (op : List String) (impl : String) : LineOut St :=
       | _, _ => { state := s, model := some "bad-op" }
     | none => { state := s, model := some "bad-op" }
   | _ => { state := s, model := some "bad-op" }
+
+/-- A panic of the real code (e.g. `close of closed channel`, `send on closed channel`) is a failure by itself. -/
+def step (s : St) (op : List String) (impl : String) : LineOut St :=
+  let r := stepOp s op impl
+  if impl.startsWith "PANIC" then { r with monitor := some ("panic", impl) } else r
 
 def checker : Checker := { σ := St, init := {}, step := step }
 
